@@ -59,6 +59,12 @@ Section Ideal.
     readable_gwsvc az g = ideal_gwsvc g.
   Proof. intros Hg Hs. unfold readable_gwsvc, ideal_gwsvc. rewrite Hg. unfold may_service. rewrite Hs. reflexivity. Qed.
 
+  (* gateway mappings of a service dump: both names (rule, up to an empty service name) *)
+  Lemma gwmapping_is_ideal g : str_empty (gs_service g) = false -> readable_gwmapping az g = ideal_gwsvc g.
+  Proof.
+    intros Hs. unfold readable_gwmapping, ideal_gwsvc, may_service, svc_ok. rewrite Hs. cbn. apply andb_comm.
+  Qed.
+
   (* ---- deviation "service-list-node-context": NodeServiceList authorizes the node once, under
           the node's peer, and does not ask again under each service's own peer ---- *)
   Lemma nsvc_list_ideal_partial (n : node) s :
@@ -116,11 +122,13 @@ Definition dev_az : authz :=
         (fun p n => negb (String.eqb n "bad") && negb (String.eqb n "") && String.eqb p "")
         (fun _ => true) (fun n => negb (String.eqb n "bad")) (fun _ => true) (fun _ => true) true false.
 
-(* "gateway-unchecked" — Internal.ServiceDump (IndexedNodesWithGateways) has authorized no gateway:
-   a mapping whose gateway may not be read is returned, and nothing is flagged. *)
+(* "gateway-unchecked" — the IndexedGatewayServices branch (Catalog.GatewayServices) relies on its
+   endpoint having authorized the one gateway it lists: handed a mapping of a gateway that may not
+   be read, the filter returns it.  (The service-dump branch, which lists all gateways, checks the
+   gateway itself since 3c2a402: [gwmapping_is_ideal].) *)
 Theorem gateway_unchecked_refuted :
   exists az g, readable_gwsvc az g = true /\ ideal_gwsvc az g = false
-  /\ filter_response az (RIndexedNodesWithGateways [] [] [g] false) = RIndexedNodesWithGateways [] [] [g] false.
+  /\ filter_response az (RIndexedGatewayServices [g] false) = RIndexedGatewayServices [g] false.
 Proof. exists dev_az, (GS 1 "bad" "web"). repeat split. Qed.
 
 Theorem empty_service_name_refuted :
@@ -169,28 +177,4 @@ Theorem unnamed_query_invisible az q f :
   filter_response az (RIndexedPreparedQueries [q] f) = RIndexedPreparedQueries [] false.
 Proof.
   intros Hw Hn. rewrite switch_exact by exact I. cbn. unfold readable_query. rewrite Hw, Hn. reflexivity.
-Qed.
-
-(* ---------------- the flag across re-runs on the same reply ---------------- *)
-
-(* Four branches never clear the flag: filtering a reply that still carries the flag of an earlier
-   run, and removing nothing, leaves it set. *)
-Theorem flag_stale_refuted :
-  exists az r, sticky_type r = true /\ flag0 r = true
-  /\ (forall it, In it (items az r) -> it_readable it = true)
-  /\ flag_of (filter_response az r) = Some true.
-Proof.
-  exists dev_az, (RIndexedNodeDump [] [NI 1 "n1" "" [] []] true). repeat split.
-  intros it [<-|[]]. reflexivity.
-Qed.
-
-(* every other branch reports this run only, whatever the flag was on entry *)
-Theorem flag_iff_nonsticky az r f' :
-  wf r -> sticky_type r = false -> flag_of (filter_response az r) = Some f' ->
-  (f' = true <-> exists it, In it (items az r) /\ it_readable it = false /\ it_flagged it = true).
-Proof.
-  intros Hwf Hs Hf. pose proof (switch_flag az r Hwf) as H. rewrite Hf, Hs in H. cbn [andb orb] in H.
-  subst f'. rewrite existsb_exists. unfold bad_item. split.
-  - intros (it & Hin & Hb). apply andb_true_iff in Hb as [Hb1 Hb2]. apply negb_true_iff in Hb1. eauto.
-  - intros (it & Hin & Hr & Hfl). exists it. rewrite Hr, Hfl. auto.
 Qed.
